@@ -41,6 +41,8 @@ def plan(tier, seed):
               tier=tier, decoy=dec)
          for lay, dec in (("w", "w"), ("rw", "wf"), ("wf", "rw"),
                           ("r", "ww"))] + \
+        [dict(seed=seed, layout=lay, reg="registered", depth=depth - 3,
+              tier=tier) for lay in ("ggf", "gf", "gff", "ggw")] + \
         [dict(seed=seed, sterile=True),
          dict(seed=seed, userspace=True,
               count=12 if tier == "quick" else 150)]
